@@ -150,3 +150,5 @@ def C17(ctx, facts):
 RULES = [
     ("E-PANIC", C17, ["default", "tls"]),
 ]
+
+THOROUGH_RULES = [("clippy-xref", panics.clippy_crosscheck)]
